@@ -18,11 +18,12 @@ import random
 from .. import core, corpus, gen, impl
 from . import common
 
-ALPHA = list("$@.[]()*,:?!=<>&|'\"\\-+01eEa_ ") + ["\n", "é"]
+ALPHA = list("$@.[]()*,:?!=<>&|'\"\\-+01eEa_ ") + ["\n", "é", "\x0c", "\xa0"]
 LEXEMES = ["$", ".a", "..a", ".*", "..*", "..", ".", "[", "]", "'a'", '"a"', "0", "1", "-1", "01", "-0", "-", ":", ",", "?", "@", "==",
            "!=", "<", "<=", "=", "!", "&&", "||", "&", "|", "(", ")", "length(", "count(", "match(", "f(", "1.5", "1e1", "1.", ".5",
-           "true", "null", "True", "NULL", "*", " ", "\n", "a", "'", "\\", "\\u", "#", "1:", "::", "@.a", "$.a", "@[0]", "'a', "]
-NEIGHBOUR_ALPHA = list("$@.[](),:?*!=<>&|'\"\\-+0 1eEaA_") + ["\n", "é", "😀", "\x01"]
+           "true", "null", "True", "NULL", "*", " ", "\n", "a", "'", "\\", "\\u", "#", "1:", "::", "@.a", "$.a", "@[0]", "'a', ", "\x0c", "\xa0",
+           "\u2003", "\x0b", "\x85", "\ufeff"]
+NEIGHBOUR_ALPHA = list("$@.[](),:?*!=<>&|'\"\\-+0 1eEaA_") + ["\n", "é", "😀", "\x01", "\x0c", "\x0b", "\xa0", "\u2003", "\x1f", "\x85", "\u2028", "\ufeff", "\x00"]
 
 
 def run(chk: core.Check, tier: str, seed: int) -> None:
@@ -36,6 +37,7 @@ def run(chk: core.Check, tier: str, seed: int) -> None:
     n_short = len(texts)
     # strings not starting with '$'
     texts += ["", " $", "a", "@", "@.a", ".a", "[0]", "$$", "\n$", "$.a$", "x$"]
+    texts += corpus.literal_queries()
     n_seq = 15000 if tier == "quick" else 400000
     for _ in range(n_seq):
         k = rng.randint(1, 9)
